@@ -203,6 +203,7 @@ def showTok : Tok → List Char
   | .s v => v
   | .n _ => ['#']
   | .g ts => '[' :: showToks ts ++ [']']
+  | .nm _ _ _ ts => showToks ts
 def showToks : List Tok → List Char
   | [] => []
   | x :: xs => showTok x ++ ' ' :: showToks xs
